@@ -12,7 +12,7 @@ def sh(cmd, cwd=None, timeout=3000):
     return p.returncode, p.stdout.decode(errors="replace")
 
 def check(prop):
-    rc, out = sh(f"/venv/bin/python harness/check.py --property {prop} --tier quick", cwd=ROOT)
+    rc, out = sh(f"VERIF_EVIDENCE_DIR=/tmp/verif_scratch_evidence /venv/bin/python harness/check.py --property {prop} --tier quick", cwd=ROOT)
     v = [l for l in out.splitlines() if l.startswith("VIOLATION") or l.startswith("  ")]
     return prop, rc, v
 
